@@ -507,9 +507,7 @@ func c01DefaultBackendCause(in Input, si int, rr runResult, rq Req, ob Observed)
 			*budget--
 			alt := rr
 			alt.objs = objs
-			e := specCluster(in, alt).route(rq)
-			ok, _ := e.agrees(ob)
-			return ok
+			return specCluster(in, alt).route(rq).agreesB(ob)
 		}
 		seen := map[string]bool{}
 		for _, v := range append([]ver{nil}, versions[keys[i]]...) {
@@ -549,8 +547,7 @@ func c01DefaultBackendCause(in Input, si int, rr runResult, rq Req, ob Observed)
 				rrCopy.objs = next
 				if i+1 == len(keys) {
 					*budget--
-					e := specCluster(in, rrCopy).route(rq)
-					if ok, _ := e.agrees(ob); ok {
+					if specCluster(in, rrCopy).route(rq).agreesB(ob) {
 						return true
 					}
 					continue
@@ -1062,10 +1059,10 @@ func main() {
 				res.OracleChecks++
 				res.Count("verdict_" + ob.Verdict)
 				res.Count("expect_" + exp.Kind)
-				if ok, _ := exp.agrees(ob); !ok && si > 0 {
+				if !exp.agreesB(ob) && si > 0 {
 					// C01/ingress-default-backend-not-pretracked (known): the spec.defaultBackend of an ingress
 					// added or updated by a partial sync is not applied (or an older one stays) until a full
-					// sync. Left unjudged only when the observation is exactly what the cluster gives with the
+					// sync (servers, or only the backend section when two sections hold the same servers). Left unjudged only when the observation is exactly what the cluster gives with the
 					// default-backend declarations of the ingresses touched by the steps taken as absent / as before.
 					if cause := c01DefaultBackendCause(in, si, rr, rq, ob); cause != "" {
 						res.Count("unjudged_known_C01:" + cause)
